@@ -201,10 +201,6 @@ pub fn run(input: &Value) -> Case {
                 let pl: Option<u64> = if let Some(p) = vpos(&o["pl"]["pos"]) {
                     if !built.is_empty() {
                         named.push((cids[k], p));
-                        if p == (65535, 65535) {
-                            // the response is mapped back to (0,0), so this names (0,0) as well
-                            named.push((cids[k], (0, 0)));
-                        }
                     }
                     if built.is_empty() {
                         None
@@ -214,6 +210,10 @@ pub fn run(input: &Value) -> Case {
                 } else {
                     o["pl"]["raw"].as_u64()
                 };
+                if pl == Some(1) && !built.is_empty() {
+                    // id 1 is what both (0,0) and (65535,65535) map to; the response is read as (0,0)
+                    named.push((cids[k], (0, 0)));
+                }
                 let err = o["err"].as_bool().unwrap_or(false);
                 if err {
                     n_err += 1;
@@ -381,9 +381,13 @@ const CORNERS: [(usize, usize); 8] =
     [(0, 0), (0, 65535), (65535, 0), (65535, 65535), (0, 1), (1, 0), (65534, 65535), (65535, 65534)];
 
 fn gen_pos(rng: &mut Rng, pool: &[(usize, usize)]) -> (usize, usize) {
-    match rng.below(10) {
-        0..=5 => *rng.pick(pool),
-        6 | 7 => *rng.pick(&CORNERS),
+    match rng.below(40) {
+        0..=23 => *rng.pick(pool),
+        24..=31 => *rng.pick(&CORNERS),
+        // beyond the 65536 limit of the property's quantifier: compared with the model only
+        32 => (65536 + rng.below(3) as usize, rng.below(3) as usize),
+        33 => (rng.below(3) as usize, 65536 * (1 + rng.below(3) as usize) + rng.below(2) as usize),
+        34 => (usize::MAX - rng.below(2) as usize, (1usize << 40) + rng.below(70000) as usize),
         _ => (rng.below(65536) as usize, rng.below(65536) as usize),
     }
 }
@@ -419,7 +423,8 @@ fn gen_history(rng: &mut Rng, big: bool) -> Value {
             14..=16 => {
                 let pl = match rng.below(5) {
                     0 => Value::Null,
-                    1 => json!({"raw": rng.below(1u64 << 33)}),
+                    1 => json!({"raw": *rng.pick(&[0u64, 1, 2, 65536, 65537, 4294967295, 4294967296, u64::MAX]) }),
+                    2 => json!({"raw": rng.below(1u64 << 33)}),
                     _ => {
                         let p = gen_pos(rng, &pool);
                         json!({"pos":[p.0,p.1]})
@@ -456,10 +461,17 @@ pub fn generate(rng: &mut Rng, n: usize, tier: &str) -> Vec<Value> {
         "ops":[{"op":"draw","img":0,"pos":[5,7]},{"op":"resp","img":0,"pl":{"pos":[5,7]},"err":true},
                {"op":"draw","img":0,"pos":[5,7]},{"op":"resp","img":0,"pl":Value::Null,"err":true},
                {"op":"draw","img":0,"pos":[1,2]},{"op":"erase","img":0,"pos":[5,7]}]}));
-    let nbig = if tier == "thorough" { n / 12 } else { n / 25 };
+    // placement ids a terminal could report, incl. 0, 1, the largest id and values beyond 32 bits
+    for raw in [0u64, 1, 2, 458758, 4294967295, 4294967296, u64::MAX] {
+        v.push(json!({"quiet": true, "images":[{"h":2,"w":3,"seed":3,"style":0}],
+            "ops":[{"op":"draw","img":0,"pos":[5,7]},{"op":"resp","img":0,"pl":{"raw":raw},"err":true},
+                   {"op":"draw","img":0,"pos":[5,7]},{"op":"erase","img":0,"pos":[5,7]}]}));
+    }
+    // large images (several chunks) are spread over the run so that the case shards stay balanced
+    let every = if tier == "thorough" { 12 } else { 25 };
     let mut k = 0;
     while v.len() < n {
-        v.push(gen_history(rng, k < nbig));
+        v.push(gen_history(rng, k % every == 3));
         k += 1;
     }
     v
